@@ -45,10 +45,13 @@ type dtEval struct {
 	intTerms  map[string]types.Type
 	boolAtoms map[string]bool
 	unknown   []string
+	// occurrence numbering (opt-in): the same text at different source positions is a different atom
+	occ     bool
+	occSeen map[string][]token.Pos
 }
 
 func newDtEval(e *Env) *dtEval {
-	return &dtEval{e: e, intTerms: map[string]types.Type{}, boolAtoms: map[string]bool{}}
+	return &dtEval{e: e, intTerms: map[string]types.Type{}, boolAtoms: map[string]bool{}, occSeen: map[string][]token.Pos{}}
 }
 
 // canon renders an expression with the outermost receiver as "$" and substituted names expanded.
@@ -78,8 +81,40 @@ func (ev *dtEval) canon(x ast.Expr, fr *dtFrame) string {
 		return ev.canon(v.X, fr) + "[" + ev.canon(v.Index, fr) + "]"
 	case *ast.BasicLit:
 		return v.Value
+	case *ast.BinaryExpr:
+		return ev.canon(v.X, fr) + v.Op.String() + ev.canon(v.Y, fr)
+	case *ast.UnaryExpr:
+		return v.Op.String() + ev.canon(v.X, fr)
 	}
 	return an.ExprString(x)
+}
+
+// atomName: with occurrence numbering, base names seen at several positions get #k (k = rank of the position).
+func (ev *dtEval) atomName(base string, pos token.Pos, collecting bool) string {
+	if !ev.occ {
+		return base
+	}
+	ps := ev.occSeen[base]
+	found := false
+	for _, p := range ps {
+		if p == pos {
+			found = true
+		}
+	}
+	if !found && collecting {
+		ps = append(ps, pos)
+		sort.Slice(ps, func(i, j int) bool { return ps[i] < ps[j] })
+		ev.occSeen[base] = ps
+	}
+	if len(ps) <= 1 {
+		return base
+	}
+	for i, p := range ps {
+		if p == pos {
+			return fmt.Sprintf("%s#%d", base, i+1)
+		}
+	}
+	return base
 }
 
 func isIntLike(t types.Type) bool {
@@ -136,9 +171,9 @@ func (ev *dtEval) evalInt(x ast.Expr, fr *dtFrame, env *dtEnv) (int64, error) {
 			return ev.evalInt(v.Args[0], fr, env)
 		}
 	}
-	name := ev.canon(x, fr)
-	ev.intTerms[name] = fr.info.TypeOf(x)
+	name := ev.atomName(ev.canon(x, fr), x.Pos(), env == nil)
 	if env == nil {
+		ev.intTerms[name] = fr.info.TypeOf(x)
 		return 0, nil
 	}
 	val, ok := env.ints[name]
@@ -200,11 +235,26 @@ func (ev *dtEval) evalBool(x ast.Expr, fr *dtFrame, env *dtEnv) (bool, error) {
 					return a >= b, nil
 				}
 			}
+			// boolean == / != boolean
+			if bx, ok := tx.Underlying().(*types.Basic); ok && bx.Info()&types.IsBoolean != 0 && (v.Op == token.EQL || v.Op == token.NEQ) {
+				a, err := ev.evalBool(v.X, fr, env)
+				if err != nil {
+					return false, err
+				}
+				b, err := ev.evalBool(v.Y, fr, env)
+				if err != nil {
+					return false, err
+				}
+				if v.Op == token.EQL {
+					return a == b, nil
+				}
+				return a != b, nil
+			}
 			// nil tests and other comparisons: boolean atom "X==Y" (normalised to ==)
 			name := ev.canon(v.X, fr) + "==" + ev.canon(v.Y, fr)
 			if (v.Op == token.EQL || v.Op == token.NEQ) && (tx != nil) {
-				ev.boolAtoms[name] = true
 				if env == nil {
+					ev.boolAtoms[name] = true
 					return false, nil
 				}
 				val, ok := env.bools[name]
@@ -252,8 +302,8 @@ func (ev *dtEval) evalBool(x ast.Expr, fr *dtFrame, env *dtEnv) (bool, error) {
 						a, b = b, a
 					}
 					name := "Equal(" + a + "," + b + ")"
-					ev.boolAtoms[name] = true
 					if env == nil {
+						ev.boolAtoms[name] = true
 						return false, nil
 					}
 					val, ok := env.bools[name]
@@ -266,9 +316,9 @@ func (ev *dtEval) evalBool(x ast.Expr, fr *dtFrame, env *dtEnv) (bool, error) {
 		}
 	}
 	// anything else boolean: an atom named by its canonical text
-	name := ev.canon(x, fr)
-	ev.boolAtoms[name] = true
+	name := ev.atomName(ev.canon(x, fr), x.Pos(), env == nil)
 	if env == nil {
+		ev.boolAtoms[name] = true
 		return false, nil
 	}
 	val, ok := env.bools[name]
